@@ -135,6 +135,26 @@ theorem evWords_x (ps : List Str) (hok : ∀ p ∈ ps, Wcoll.pieceOK p = true)
     simp only [Wcoll.joinComma] at this
     rw [this]; rfl
 
+/-- `-x LIST` and the same pieces written as dash words of a `-w` argument reach `wcoll_arg_process` as the very
+    same words — whatever the pieces are (host words, caret-file words, filters) -/
+theorem evWords_x_eq_w (ps : List Str) (hok : ∀ p ∈ ps, Wcoll.pieceOK p = true)
+    (hok' : ∀ p ∈ ps, Wcoll.pieceOK ('-' :: p) = true) (hd : optText (ps.map ('-' :: ·)) ≠ ['-']) :
+    evWords (.x (optText ps)) = evWords (.w (optText (ps.map ('-' :: ·)))) := by
+  rw [evWords_x ps hok hok', evWords_w _ (fun p hp => by
+    obtain ⟨q, hq, rfl⟩ := List.mem_map.mp hp
+    exact hok' q hq) hd]
+
+/-- EVERY SOURCE OF EXCLUSIONS, one mechanism: replacing a `-x LIST` option by `-w` with the dashed pieces leaves
+    the result of `opt_args` unchanged — for every variant of the code, any other options before and after -/
+theorem cliFinal_x_eq_dash_w (cfg : Cfg) (env : Env) (pre post : List Ev) (ps : List Str)
+    (hok : ∀ p ∈ ps, Wcoll.pieceOK p = true) (hok' : ∀ p ∈ ps, Wcoll.pieceOK ('-' :: p) = true)
+    (hd : optText (ps.map ('-' :: ·)) ≠ ['-']) :
+    cliFinal cfg env (pre ++ [.x (optText ps)] ++ post) =
+      cliFinal cfg env (pre ++ [.w (optText (ps.map ('-' :: ·)))] ++ post) := by
+  rw [cliFinal_eq_cliWords, cliFinal_eq_cliWords]
+  simp only [List.flatMap_append, List.flatMap_cons, List.flatMap_nil, List.append_nil]
+  rw [evWords_x_eq_w ps hok hok' hd]
+
 /-- one option of the command line, by meaning: `-w` with any words, `-x` with exclusion words and
     filters (every piece of a `-x` argument is taken as excluded) -/
 inductive OptG where
